@@ -627,3 +627,54 @@ def run_c16(tier, seed, replay=None):
         return finish(pid, tier, seed, t0, cov, assumptions, diffs, lambda d: "veccache/" + d["what"], known, lambda d: d)
     finally:
         sc.close()
+
+
+# ---------------------------------------------------------------------------
+# C09 (b): frozen corpus
+
+def corpus_stage(zx, sc, tier, seed, known):
+    import gzip, lifecheck
+    pid = "C09"
+    cdir = os.path.join(ROOT, "corpus")
+    scen = sorted(d for d in os.listdir(cdir) if os.path.isdir(os.path.join(cdir, d)))
+    allp = sc.path("corpus-all.ndjson")
+    nfiles = 0
+    with open(allp, "wb") as out:
+        for s in scen:
+            wd = sc.path("corpus-" + s)
+            shutil.copytree(os.path.join(cdir, s), wd)
+            with gzip.open(os.path.join(wd, "inputs.ndjson.gz"), "rb") as fh, open(os.path.join(wd, "inputs.ndjson"), "wb") as o:
+                shutil.copyfileobj(fh, o)
+            tp = sc.path("corpus-%s.ndjson" % s)
+            p = subprocess.run([zx, "corpus-open", "-in", wd, "-out", tp, "-dir", sc.path("corpus-segs-" + s), "-seed", str(seed)],
+                               stdout=subprocess.PIPE, stderr=subprocess.STDOUT, text=True, timeout=3600)
+            if p.returncode not in (0, 3):
+                raise Inconclusive("harness corpus-open failed: " + p.stdout[-1500:])
+            nfiles += kv(p.stdout).get("files", 0)
+            with open(tp, "rb") as fh:
+                shutil.copyfileobj(fh, out)
+    save = dict(lifecheck.LAYOUT)
+    lifecheck.LAYOUT["on"] = "0"
+    mism, acc, rej, vst = lifecheck.validate(sc, allp, "corpus.out")
+    lifecheck.LAYOUT.update(save)
+    paths, seen = [], set()
+    items = [(m, it) for m in mism for it in m["bad"]]
+    if rej is not None:
+        items.append(({"l": int(str(rej).strip()), "prov": "rejected"}, ["no-spec-action"]))
+    for m, it in items:
+        key = "corpus/%s/%s" % (m["prov"], it[0])
+        if known_open(known, lifecheck.key_of(m["prov"], it)) is not None:
+            continue
+        if key in seen or len(paths) >= 3:
+            continue
+        seen.add(key)
+        log("mismatch %s (frozen file re-read by the current code): %s" % (key, trunc(it, 400)))
+        paths.append(save_replay(pid, seed, 100 + len(paths), {"property": pid, "key": key, "family": "corpus", "detail": trunc(it, 3000)}))
+    log("C: frozen corpus: %d scenarios, %d files written by the pinned release re-opened and validated by TLC in %.0fs; mismatching steps: %d" %
+        (len(scen), nfiles, vst["wall_s"], len(mism)))
+    if nfiles == 0:
+        raise Inconclusive("empty corpus")
+    cov = {"family": "corpus", "states": vst["distinct_states"], "transitions": vst["states_generated"], "traces_validated_against_impl": nfiles,
+           "samples": [{"scenario": s, "files": sorted(f for f in os.listdir(os.path.join(cdir, s)) if f.endswith(".zap"))} for s in scen],
+           "scenarios": scen, "files": nfiles}
+    return {"cov": cov, "paths": paths}
